@@ -366,10 +366,21 @@ pub fn check_family(ctx: &Ctx, tag: &str, fam: &[Vec<u8>], eval: &(dyn Fn(&[u8])
 }
 
 pub fn drive_families(ctx: &Ctx, tag: &'static str, cases: u32, eval: &(dyn Fn(&[u8]) -> String + Sync)) {
+    drive_families_with(ctx, tag, cases, eval, None)
+}
+
+/// as `drive_families`; every member of a family (truncated, zero-padded, re-addressed ... copies of generated frames)
+/// is also put through the property's own per-input oracle
+pub fn drive_families_with(ctx: &Ctx, tag: &'static str, cases: u32, eval: &(dyn Fn(&[u8]) -> String + Sync), member: Option<Oracle>) {
     let shards = 16u32;
     (0..shards).into_par_iter().for_each(|s| {
         run_prop(ctx, &format!("families-{s}"), cases / shards, family(), |fam| {
             ctx.class("family of related inputs (history independence)");
+            if let Some(o) = member {
+                for f in fam {
+                    o(f)?;
+                }
+            }
             check_family(ctx, tag, fam, eval)
         });
     });
